@@ -49,6 +49,11 @@ pub struct CtlConfig {
     pub clock_choices: u32,
     pub clock_step: Duration,
     pub step_cap: usize,
+    /// Background mode: a job that writes to a blob is split into two steps -- the closure
+    /// (offset reservation; its `pwrite`s are deferred) and the application of the deferred
+    /// writes followed by the delivery of the result -- so that closures of different tasks
+    /// interleave the way they do on a real blocking pool.
+    pub split_write_jobs: bool,
 }
 
 impl Default for CtlConfig {
@@ -65,6 +70,7 @@ impl Default for CtlConfig {
             clock_choices: 0,
             clock_step: Duration::from_secs(200),
             step_cap: 200_000,
+            split_write_jobs: false,
         }
     }
 }
@@ -113,10 +119,20 @@ struct TaskInfo {
     pending_point: Option<Label>,
 }
 
+enum JobStage {
+    /// not started: the closure
+    Closure(Box<dyn FnOnce() -> Box<dyn FnOnce() + Send> + Send>),
+    /// closure ran with its writes deferred: apply them, then deliver the result
+    Finish {
+        writes: Vec<(std::fs::File, u64, Vec<u8>)>,
+        deliver: Box<dyn FnOnce() + Send>,
+    },
+}
+
 struct Job {
     id: usize,
     owner: Option<TaskId>,
-    f: Box<dyn FnOnce() + Send>,
+    stage: JobStage,
 }
 
 /// A schedulable entity.
@@ -139,6 +155,8 @@ struct St {
     clock_request: Option<Duration>,
     exploring: bool,
     logical: u64,
+    /// a job closure is running and its blob writes are being deferred into this list
+    deferring: Option<Vec<(std::fs::File, u64, Vec<u8>)>>,
 }
 
 pub struct Ctl {
@@ -164,6 +182,7 @@ impl Ctl {
                 clock_request: None,
                 exploring: true,
                 logical: 0,
+                deferring: None,
             }),
             cfg,
             log: RefCell::new(IoLog::default()),
@@ -412,12 +431,24 @@ impl Controller for Ctl {
         })
     }
 
-    fn submit_job(&self, f: Box<dyn FnOnce() + Send>) {
+    fn submit_job(&self, f: Box<dyn FnOnce() -> Box<dyn FnOnce() + Send> + Send>) {
         let mut st = self.st.borrow_mut();
         let id = st.next_job;
         st.next_job += 1;
         let owner = st.in_poll;
-        st.jobs.push_back(Job { id, owner, f });
+        st.jobs.push_back(Job { id, owner, stage: JobStage::Closure(f) });
+    }
+
+    fn deferred_write(&self, file: std::fs::File, offset: u64, data: Vec<u8>) {
+        let mut st = self.st.borrow_mut();
+        match st.deferring.as_mut() {
+            Some(v) => v.push((file, offset, data)),
+            None => {
+                // not expected: perform it at once
+                use std::os::unix::fs::FileExt;
+                let _ = file.write_all_at(&data, offset);
+            }
+        }
     }
 
     fn external(&self, begin: bool) {
@@ -433,10 +464,17 @@ impl Controller for Ctl {
 
     fn tap(&self, ev: &IoEvent) -> TapAction {
         let task = self.st.borrow().in_poll;
-        let action = match self.fault.borrow_mut().as_mut() {
+        let mut action = match self.fault.borrow_mut().as_mut() {
             Some(plan) => plan.decide(ev),
             None => TapAction::Proceed,
         };
+        if matches!(action, TapAction::Proceed)
+            && matches!(ev.op, IoOp::Write { .. })
+            && is_blob(&ev.path)
+            && self.st.borrow().deferring.is_some()
+        {
+            action = TapAction::Defer;
+        }
         let faulted = !matches!(action, TapAction::Proceed);
         self.log.borrow_mut().record(task, ev, faulted, &action);
         action
@@ -732,7 +770,33 @@ fn run_job(ctl: &Ctl, id: usize) {
             let mut st = ctl.st.borrow_mut();
             std::mem::replace(&mut st.in_poll, job.owner)
         };
-        (job.f)();
+        match job.stage {
+            JobStage::Closure(f) => {
+                let split = ctl.cfg.split_write_jobs && ctl.cfg.io_mode == IoMode::Background && ctl.exploring();
+                if split {
+                    ctl.st.borrow_mut().deferring = Some(Vec::new());
+                }
+                let deliver = f();
+                let writes = ctl.st.borrow_mut().deferring.take().unwrap_or_default();
+                if writes.is_empty() {
+                    deliver();
+                } else {
+                    // second step of the same job: it keeps its id and its place in the order
+                    let mut st = ctl.st.borrow_mut();
+                    st.jobs.push_front(Job { id: job.id, owner: job.owner, stage: JobStage::Finish { writes, deliver } });
+                    st.jobs_run -= 1;
+                }
+            }
+            JobStage::Finish { writes, deliver } => {
+                use std::os::unix::fs::FileExt;
+                for (file, offset, data) in writes {
+                    // a failure here cannot be reported to the closure any more; split mode is
+                    // only used in fault-free explorations
+                    file.write_all_at(&data, offset).expect("deferred write");
+                }
+                deliver();
+            }
+        }
         ctl.st.borrow_mut().in_poll = prev;
     }
 }
